@@ -83,3 +83,45 @@ Proof. exact dedup_nodup_id. Qed.
 Theorem C12_dedup_mask_positions : forall b k o, nth_error (dedup b) k = Some o ->
   exists i r, first_at b (key_of o) i r /\ r_tokens o = r_tokens r /\ r_mask o = r_mask r.
 Proof. exact dedup_mask_positions. Qed.
+
+(* ---- compositions (work package X; proofs/ComposeBatch.v): the abstract `enc` instantiated with the real
+   token encoding `ComposeBatch.real_enc p` = encoding.encode(p) with the sentinel ---- *)
+From TV Require model.Encoding spec.EncodingSpec proofs.ComposeBatch.
+(* real_enc is C06's encode (total on the domain `encodable`) *)
+Theorem C12_real_enc_is_encode : forall p, EncodingSpec.encodable p ->
+  Encoding.encode true p = Some (ComposeBatch.real_enc p).
+Proof. exact ComposeBatch.real_enc_defined. Qed.
+(* C12 + C06: on batches of encodable positions the key of row i is the encoding of position i; two rows have the same key iff their positions have the same (board, side to move, reserves); hence dedup returns each distinct POSITION (its key decodes to the position's triple) exactly once, in order of first occurrence *)
+Theorem C12_dedup_distinct_positions : forall logs b,
+  Forall wf_transcript logs -> Forall EncodingSpec.encodable (flat_map t_positions logs) ->
+  encode_games ComposeBatch.real_enc logs = Some b ->
+  map key_of b = map ComposeBatch.real_enc (flat_map t_positions logs) /\
+  (forall i j p q ri rj, nth_error (flat_map t_positions logs) i = Some p ->
+     nth_error (flat_map t_positions logs) j = Some q -> nth_error b i = Some ri -> nth_error b j = Some rj ->
+     (key_of ri = key_of rj <-> Encoding.triple p = Encoding.triple q)) /\
+  (forall k o, nth_error (dedup b) k = Some o ->
+     exists i p, ComposeBatch.first_pos_at (flat_map t_positions logs) i p /\
+                 key_of o = ComposeBatch.real_enc p /\ Encoding.decode (key_of o) = Some (Encoding.triple p)) /\
+  (forall p, In p (flat_map t_positions logs) ->
+     exists k o, nth_error (dedup b) k = Some o /\ Encoding.decode (key_of o) = Some (Encoding.triple p)) /\
+  (forall k k' o o', nth_error (dedup b) k = Some o -> nth_error (dedup b) k' = Some o' ->
+     Encoding.decode (key_of o) = Encoding.decode (key_of o') -> k = k') /\
+  (forall k k' o o' i i' p p', (k < k')%nat ->
+     nth_error (dedup b) k = Some o -> nth_error (dedup b) k' = Some o' ->
+     ComposeBatch.first_pos_at (flat_map t_positions logs) i p -> Encoding.decode (key_of o) = Some (Encoding.triple p) ->
+     ComposeBatch.first_pos_at (flat_map t_positions logs) i' p' -> Encoding.decode (key_of o') = Some (Encoding.triple p') ->
+     (i < i')%nat).
+Proof. exact ComposeBatch.dedup_distinct_positions. Qed.
+(* first_pos_at ps i p: p is at index i and no earlier position has the same (board, side to move, reserves) *)
+Theorem C12_first_pos_at_reading : forall ps i p,
+  ComposeBatch.first_pos_at ps i p <->
+  nth_error ps i = Some p /\
+  forall j q, (j < i)%nat -> nth_error ps j = Some q -> Encoding.triple q <> Encoding.triple p.
+Proof. exact ComposeBatch.first_pos_at_reading. Qed.
+(* C12 + C11 + C04 + C06: the two hypotheses hold for the transcripts of play_one_game on sizes 3..6 *)
+Theorem C12_self_play_batches_encodable : forall cfg (games : list (list answer * transcript * exit * position)),
+  3 <= sp_size cfg <= 6 ->
+  Forall (fun g => let '(s, tr, e, f) := g in play_one_game cfg s = Done tr e f) games ->
+  Forall wf_transcript (map (fun g => snd (fst (fst g))) games) /\
+  Forall EncodingSpec.encodable (flat_map t_positions (map (fun g => snd (fst (fst g))) games)).
+Proof. exact ComposeBatch.self_play_batches_encodable. Qed.
